@@ -62,6 +62,7 @@ func TestWorker(t *testing.T) {
 	case "single":
 		seed, _ := strconv.ParseUint(os.Getenv("VERIF_SEED"), 10, 64)
 		spec := RunSpec{Prop: os.Getenv("VERIF_PROP"), Fam: os.Getenv("VERIF_FAM"), Seed: seed, Verbose: os.Getenv("VERIF_VERBOSE") != ""}
+		spec.Param, _ = strconv.Atoi(os.Getenv("VERIF_PARAM"))
 		r := ExecRun(t, spec)
 		for _, l := range r.Text {
 			fmt.Println(l)
